@@ -187,3 +187,18 @@ PROPS['C16'] = dict(
     level_note='Fixes made while building this check: N-Quads "." after a graph name not committed, Turtle/TriG empty string literal committing the next rune twice, Turtle/TriG blank node ranges without "_:", RDF/XML zero ranges (reification, attributes without metadata, attribute errors), N-Triples/N-Quads error offsets counted twice. '
                'Known findings (third-party inspecthtml-go / cursorio): F35b, F36b, F40, F49, F50, F51.',
 )
+
+PROPS['C07'] = dict(
+    families=[dict(name='c07-subset', quick=6000, thorough=300000)],
+    slice=40,
+    rule='N-Triples documents (grammar-directed generator with comments, CRLF, tabs, multi-byte characters; the repository\'s N-Triples encoder on generated graphs; positive W3C N-Triples files) through the N-Triples, N-Quads, Turtle and TriG decoders; '
+         'Turtle documents (grammar-directed Turtle writer covering every production: prefixed names with escapes, relative IRIs under changing base, four string styles, numeric/boolean shorthands, nested property lists, collections, repeated ";"; positive W3C Turtle files) through the Turtle and TriG decoders: '
+         'same triples (as sets up to blank node renaming, and the same statement count), all in the default graph; documents the smaller language\'s decoder rejects are outside the quantifier and counted as skipped; '
+         'model-backed: each N-Triples document through the N-Quads decoder model',
+    trusted_base=['model/NQ.v with nq=false / nq=true is the model of both encoding/ntriples and encoding/nquads (tied to both by the K/C01, K/C15, K/C16, K/C07 correspondences)',
+                  'the harness\' Turtle writer (ttlgen.go) decides what is grammatical Turtle'],
+    assumptions=['Turtle and TriG decoders have no Gallina model: N-Triples-in-Turtle and Turtle-in-TriG are explored, not proved'],
+    explanation='theorem: whatever the N-Triples decoder model accepts, the N-Quads decoder model decodes to the same statements, in the default graph, with the same ranges; the four Go decoders are compared on generated and archived documents',
+    level_text='Proof for N-Triples in N-Quads over all inputs and reader endings (C07_nt_subset_nq); exploration by differential decoding for N-Triples in Turtle/TriG and Turtle in TriG.',
+    level_note='No defect found by this check itself; the Turtle/TriG fixes recorded under C08/C15/C16 apply to both decoders.',
+)
